@@ -1,6 +1,7 @@
 import StepModel.GenCxxMirror
 import StepModel.GenCxxFlags
 import StepModel.GenCxxFlagSpec
+import StepModel.GenCxxRedefSpec
 import StepModel.RegistryModel
 import StepModel.Accessors
 /-!
@@ -418,6 +419,39 @@ theorem C02_flags_derive_chain_partial {s : Schema} {n : String} {c : List Entit
       have hsa : saAt st id = some o.sa := by simp [saAt, hobj]
       have := cs.der id o.sa hsa
       simpa [dAt, hobj] using this
+
+/-- Which attributes of a fresh instance have `_redefAttr` set, for every entity with a single-inheritance ancestry of any
+    length: the flags are exactly `redefSpec` — walking the explicit attributes of the chain root first, every explicit
+    redeclaration `SELF\sup.nm` marks the FIRST attribute (creation order) that is registered under the name `nm` at that moment
+    (no owner filter, as `MakeRedefined` searches); the attribute list itself is the chain's attributes in that order.
+    Partial: single-inheritance ancestries (with several supertypes a part's `MakeRedefined` marks the part's own copy). -/
+theorem C02_flags_redef_chain_partial {s : Schema} {n : String} {c : List Entity} (h : IsChain s n c)
+    (hf : c.length ≤ fuelOf s) (hk : KeysNodup c) :
+    (instanceFlags s n).map (fun l => l.map (fun t => (t.1, t.2.2))) = some (redefSpec c) := by
+  obtain ⟨h1, h2, _⟩ := chain_redef h (fuelOf s) hf hk
+  unfold instanceFlags
+  have hkey := C02_push_compares_descriptor
+  simp only [hkey, Option.map_some]
+  congr 1
+  generalize ctorNF s (fuelOf s) n {} = st at h1 h2
+  rw [h1, ← h2]
+  have := filterMap_range st.objs (fun o => (o.sa, o.derive, o.redef))
+  rw [this, List.map_map]
+  rfl
+
+/-- A `_redefAttr` flag never appears out of nothing: every flagged attribute is registered under the name that some explicit
+    redeclaration on the chain redeclares. -/
+theorem C02_flags_redef_sound (c : List Entity) (q : SA × Bool) (hq : q ∈ redefSpec c) (ht : q.2 = true) :
+    ∃ p ∈ flatExplicit c, p.2.redecl.isSome = true ∧ p.2.name = q.1.name :=
+  redefSpec_sound (flatExplicit c) [] (by intro q hq; simp at hq) (flatExplicit c) (fun _ hp => hp) q hq ht
+
+/-- first match, not every match: two entities of one chain redeclare `SELF\a.x`; both marks land on `a.x` (the first attribute
+    registered as `x`), the redefining entries `a.x` of `b` and of `c` are never marked -/
+example :
+    redefSpec [{ name := "a", attrs := [{ name := "x", type := .base .integer }] },
+               { name := "b", supers := ["a"], attrs := [{ name := "x", redecl := some "a", type := .base .integer }] },
+               { name := "c", supers := ["b"], attrs := [{ name := "x", redecl := some "a", type := .base .integer }] }]
+      = [(⟨"a", "x", .E⟩, true), (⟨"b", "a.x", .R⟩, false), (⟨"c", "a.x", .R⟩, false)] := by decide
 
 /-- non-vacuity of `C02_flags_derive_chain_partial`: a three-entity chain with a derived and an explicit redeclaration -/
 def exChain : Schema :=
